@@ -130,6 +130,66 @@ invariant
     forall|j: int| i <= j <= size - i && j != size as int / 2 ==> #[trigger] outp@[j] == old(outp)@[j],
     forall|j: int| size <= j < outp@.len() ==> #[trigger] outp@[j] == old(outp)@[j],
 '''}, before=[('outp[0] *= size_inv', 'assert((size >> 1usize) == size / 2) by (bit_vector);')])
+    # polynomial::inv_pow2: the inverse of a power of two as a power of 1/2
+    u.raw('''
+#[verifier::external_body]
+fn fe_half() -> (r: Fe) ensures cong(2 * fe_v(r), 1) { unimplemented!() }
+#[verifier::external_body]
+fn usize_try_from_u128(x: u128) -> (r: Result<usize, ()>)
+    ensures (x as int <= usize::MAX as int) ==> r == Ok::<usize, ()>(x as usize), (x as int > usize::MAX as int) ==> r is Err
+{ unimplemented!() }
+proof fn lemma_shl_pow2_k(k: usize)
+    requires k <= 62
+    ensures (1usize << k) as int == pow2(k as nat)
+{ lemma2_to64(); lemma_pow2_strictly_increases(k as nat, 64); lemma_usize_shl_is_mul(1usize, k); }
+''', 'inv-pow2-prelude')
+    u.item('src/polynomial.rs', ['fn inv_pow2'], ret='r',
+           rewrites=[(r'<F: FieldElement>', '', 1), (r'-> F\b', '-> Fe', 1), (r'\bF::half\(\)', 'fe_half()', 1), (r'\bF::one\(\)', 'fe_one()', 1),
+                     (r'usize::try_from\(log2\(n as u128\)\)', 'usize_try_from_u128(log2(n as u128))', 1),
+                     (r'assert_eq!\(n, 1 << log2_n\);', 'assert!(n == 1 << log2_n);', 1), (r'for _ in ', 'for _i in ', 1)],
+           sig='''
+requires
+    // derived from the assert_eq!: n must be a power of two (callers pass the length of a root table)
+    exists|k: nat| k <= 62 && n as int == pow2(k),
+ensures
+    // r * n == 1 in the field
+    cong(fe_v(r) * n as int, 1),
+''', loops={0: '''
+invariant
+    cong(2 * fe_v(half), 1),
+    _i <= log2_n,
+    cong(fe_v(x) * (pow2(_i as nat) as int), 1),
+'''}, before=[('let log2_n =', '''
+    let k0 = choose|k: nat| k <= 62 && n as int == pow2(k);
+    lemma_pow2_pos(k0);
+'''), ('assert!(n == 1 << log2_n)', '''
+    let k = choose|k: nat| k <= 62 && n as int == pow2(k);
+    lemma_pow2_pos(k);
+    // ceil(log2(2^k)) == k
+    if log2_n as int > k { lemma_pow2_strictly_increases_or_eq_k(k, (log2_n - 1) as nat); }
+    if (log2_n as int) < k { lemma_pow2_strictly_increases(log2_n as nat, k); }
+    lemma_shl_pow2_k(log2_n);
+'''), ('for _i in 0..log2_n', '''
+    broadcast use axiom_fe_mk, axiom_fe_range;
+    lemma2_to64(); lemma_cong_refl(1);
+    assert(fe_v(x) * (pow2(0) as int) == 1) by (nonlinear_arith) requires fe_v(x) == 1, pow2(0) == 1;
+'''), ('x *= half', '''
+    broadcast use axiom_fe_mk;
+    let m = fe_mk(fe_v(x) * fe_v(half));
+    lemma_ops(x, half);
+    let p2 = pow2(_i as nat) as int;
+    lemma_pow2_unfold((_i + 1) as nat);
+    // m * 2^(i+1) == (x * half) * 2 * 2^i == (x * 2^i) * (2 * half) == 1 * 1
+    lemma_cong_refl(2 * p2);
+    lemma_cong_mul(fe_v(m), fe_v(x) * fe_v(half), 2 * p2, 2 * p2);
+    lemma_cong_mul(fe_v(x) * p2, 1, 2 * fe_v(half), 1);
+    assert((fe_v(x) * fe_v(half)) * (2 * p2) == (fe_v(x) * p2) * (2 * fe_v(half))) by (nonlinear_arith);
+    lemma_cong_trans(fe_v(m) * (2 * p2), (fe_v(x) * p2) * (2 * fe_v(half)), 1);
+''')])
+    u.raw('''
+proof fn lemma_pow2_strictly_increases_or_eq_k(a: nat, b: nat) requires a <= b ensures pow2(a) <= pow2(b)
+{ if a < b { lemma_pow2_strictly_increases(a, b); } }
+''', 'pow2-mono')
     # fp::log2: ceiling of the base-2 logarithm
     u.item('src/fp.rs', ['fn log2'], ret='r',
            rewrites=[(r'\(\(x > 1 << y\) as u128\)', 'bool_as_u128(x > 1 << y)', 1)],
